@@ -579,6 +579,7 @@ func main() {
 	samples := fw.NewSampler(16)
 	t0 := time.Now()
 	st := fsBFS(run, depth, deadline, outcomes, samples)
+	wd := wideExplore(run, outcomes)
 	t1 := time.Now()
 	rd := readdirExplore(run, outcomes, samples)
 	t2 := time.Now()
@@ -590,17 +591,19 @@ func main() {
 		depths = append(depths, l)
 	}
 	run.Finish(fw.Coverage{
-		Evaluations:     st.transitions + st.primed + st.tableRuns + rd.sequences + rd.mutated,
-		DistinctNontriv: st.states - 1 + rd.sequences + rd.mutated,
+		Evaluations:     st.transitions + st.primed + st.tableRuns + wd.words + rd.sequences + rd.mutated,
+		DistinctNontriv: st.states - 1 + wd.states + rd.sequences + rd.mutated,
 		States:          st.states, Transitions: st.transitions, TracesValidated: st.transitions,
-		Rule:    "fs: distinct canonical reference-model states (tree+contents, descriptor table with inode identity, offsets, append/write flags) other than the initial one, each reached by executing its shortest history on the real WASI implementation; readdir: distinct (directory, buf_len, cookie sequence) call sequences, each executed on a fresh directory descriptor; readdir-mutation: distinct (directory, buf_len, traversal prefix, mutation) cases",
+		Rule:    "fs: distinct canonical reference-model states (tree+contents, descriptor table with inode identity, offsets, append/write flags) other than the initial one, each reached by executing its shortest history on the real WASI implementation; readdir: distinct (directory, buf_len, cookie sequence) call sequences, each executed on a fresh directory descriptor; wide-table: distinct sets of open descriptor numbers reached from the N-descriptor tables; readdir-mutation: distinct (directory, buf_len, traversal prefix, mutation) cases",
 		Samples: samples.List(), Exhaustive: st.exhaustive && rd.exhaustive, Outcomes: outcomes.Map(),
 		Bounds: map[string]any{
 			"fs_alphabet": len(alphabet()), "fs_depth": depth, "fs_per_depth": depths,
 			"fs_names": names, "fs_fds": "3(preopen)..6", "fs_data": []string{"", "xy", "wazero"},
-			"readdir": rd.bounds, "fs_host_filesystem": fastFS, "readdir_host_filesystem": tmpFS,
+			"wide_table": map[string]any{"N": wideNs, "numbers": "4,5,62..66,126..129,N+3,N+4", "depth": 2, "per_N": wd.perN},
+			"readdir":    rd.bounds, "fs_host_filesystem": fastFS, "readdir_host_filesystem": tmpFS,
 		},
 		Extra: map[string]any{
+			"wide_table_words": wd.words, "wide_table_states": wd.states,
 			"fs_transitions_also_executed_primed": st.primed, "fs_descriptor_table_variant_executions": st.tableRuns, "readdir_mutation_cases": rd.mutated,
 			"fs_transitions_outside_model": st.outside, "fs_transitions_with_mismatch": st.pruned,
 			"readdir_calls": rd.calls, "readdir_sequences": rd.sequences, "readdir_traversals": rd.traversals,
@@ -626,6 +629,7 @@ func replay(file string) int {
 		Signature string `json:"signature"`
 		Replay    struct {
 			Kind    string       `json:"kind"`
+			N       int          `json:"n"`
 			History []Op         `json:"history"`
 			Primed  bool         `json:"primed"` // older replay files
 			Variant variant      `json:"variant"`
@@ -647,6 +651,15 @@ func replay(file string) int {
 			return 1
 		}
 		fmt.Println("no mismatch: the implementation agrees with the model on this history")
+		return 0
+	case "wide":
+		w := newWorker(0)
+		r := w.executeWide(doc.Replay.N, doc.Replay.History, true)
+		if r.mism != nil {
+			fmt.Printf("MISMATCH signature=%s: %s\n", r.mism.Sig, r.mism.What)
+			return 1
+		}
+		fmt.Println("no mismatch: the implementation agrees with the model on this word")
 		return 0
 	case "readdir":
 		return replayReaddir(doc.Replay.Readdir)
